@@ -352,3 +352,89 @@ package consensus
 //@   loop 0: invariant forall j int :: {w.wi.fileSizes[j]} 0 <= j && j <= rangeindex ==> psum(sizes(w), j + 1) < w.validOffset
 //@   loop 0: invariant forall i int :: !removed(w, i) && !truncated(w, i)
 //@   loop 1: invariant idx + 1 <= i && i <= w.wi.tailIdx + 1 && (forall q int :: idx < q && q < i ==> removed(w, q)) && (forall q int :: q <= idx ==> !removed(w, q))
+
+// ---------------------------------------------------------------------------
+// C02: no vote or proposal leaves the node before it is durable in the round WAL
+// ---------------------------------------------------------------------------
+
+//@ property C02
+// Ghost view of "the" WAL writer: wal_rec[0..wal_rec_len) is the record handed to the latest
+// successful WriteBytes, wal_synced tells whether a successful Sync followed it.
+//@ smt all (declare-ghost wal_rec (Array IDX BYTE))
+//@ smt all (declare-ghost wal_rec_len IDX)
+//@ smt all (declare-ghost wal_ok Bool)
+//@ smt all (declare-ghost wal_synced Bool)
+//@ smt all (declare-ghost signed_msg Int)
+//@ func (w WALWriter) WriteBytes(bs) (n, err)
+//@   iface
+//@   trusted
+//@   modifies ghost(wal_rec), ghost(wal_rec_len), ghost(wal_ok), ghost(wal_synced)
+//@   ensures !ghost(wal_synced) && ghost(wal_ok) == (err == nil) && ghost(wal_rec_len) == len(bs)
+//@   ensures forall j int :: {ghost(wal_rec)[j]} 0 <= j && j < len(bs) ==> ghost(wal_rec)[j] == arr(bs)[off(bs) + j]
+//@ func (w WALWriter) Sync() (err)
+//@   iface
+//@   trusted
+//@   pure
+//@   opt ghost:wal_synced (err == nil && ghost(wal_ok))
+
+// the record is be16(subprotocol) | message bytes
+//@ spec recIs(sp, msg) = ghost(wal_ok) && ghost(wal_rec_len) == 2 + len(msg) && int(ghost(wal_rec)[0]) * 256 + int(ghost(wal_rec)[1]) == int(sp) && (forall j int :: {arr(msg)[j]} off(msg) <= j && j < off(msg) + len(msg) ==> ghost(wal_rec)[2 + (j - off(msg))] == arr(msg)[j])
+//@ func (w *WalMessageWriter) WriteMessageBytes(sp, msg) (err)
+//@   arith int
+//@   requires w != nil
+//@   requires w.WALWriter != nil
+//@   requires len(msg) < 0x1000000000000
+//@   modifies ghost(wal_rec), ghost(wal_rec_len), ghost(wal_ok), ghost(wal_synced)
+//@   ensures [record] err == nil ==> recIs(sp, msg) && !ghost(wal_synced)
+//@   ensures [failed] err != nil ==> !ghost(wal_ok) && !ghost(wal_synced)
+
+// a step is entered only from a strictly lower step, except the two round/height restarts
+//@ func isValidTransition(from, to) (ok)
+//@   pure
+//@   ensures [monotone] ok && to != stepNewHeight && to != stepNewRound ==> from < to
+//@   ensures [exact] ok == ((to == stepNewHeight) ? (from == stepNewHeight || from == stepCommit) : ((to == stepNewRound) ? true : from < to))
+//@ func (cs *consensus) beginStep(step)
+//@   nosafety
+//@   requires cs != nil
+//@   modifies cs.step
+//@   ensures [entered] cs.step == step
+//@   ensures [monotone] step != stepNewHeight && step != stepNewRound ==> old(cs.step) < step
+
+// signing records which message object was signed
+//@ func (s *signedBase) Sign(wallet) (err)
+//@   trusted
+//@   modifies s._hash, s._publicKey, s.Signature
+//@   opt ghost:signed_msg owner(s)
+//@   opt ghost:enc_epoch ghost(enc_epoch) + 1
+
+// The vote carries exactly (cs.height, cs.round, vt); it is marshalled after signing, the very
+// bytes are written to the round WAL and synced, and only then handed to the network.
+//@ func (cs *consensus) doSendVote(vt, blockParts) (err)
+//@   arith int
+//@   nosafety
+//@   modifies *
+//@   opt protect cs.height, cs.round, cs.roundWAL, cs.ph, cs.roundWAL.WALWriter
+//@   noinline ntsVoteBaseAndDecisionProofParts, ReceiveVoteMessage
+//@   opt protect-local msg.Height, msg.Round, msg.Type
+//@   requires cs != nil && cs.roundWAL != nil && cs.roundWAL.WALWriter != nil
+//@   callpre MarshalToBytes: typeof(v) == typeid(ptr_VoteMessage)
+//@   callpre MarshalToBytes: ref(as(ptr_VoteMessage, v)) == ghost(signed_msg)
+//@   callpre MarshalToBytes: as(ptr_VoteMessage, v).Height == cs.height
+//@   callpre MarshalToBytes: as(ptr_VoteMessage, v).Round == cs.round
+//@   callpre MarshalToBytes: as(ptr_VoteMessage, v).Type == vt
+//@   callpre WriteMessageBytes: w == cs.roundWAL && sp == 512
+//@   callpre Multicast: pi == 512 && ghost(wal_synced) && recIs(512, b)
+//@   callpre Broadcast: pi == 512 && ghost(wal_synced) && recIs(512, b)
+
+//@ func (cs *consensus) doSendProposal(blockParts, polRound) (err)
+//@   arith int
+//@   nosafety
+//@   modifies *
+//@   opt protect cs.height, cs.round, cs.roundWAL, cs.ph, cs.roundWAL.WALWriter
+//@   noinline voteListForOverTwoThirds, votesFor
+//@   opt protect-local msg.Height, msg.Round
+//@   requires cs != nil && cs.roundWAL != nil && cs.roundWAL.WALWriter != nil && blockParts != nil
+//@   callpre MarshalToBytes: typeof(v) == typeid(ptr_ProposalMessage) ==> as(ptr_ProposalMessage, v).Height == cs.height && as(ptr_ProposalMessage, v).Round == cs.round
+//@   callpre WriteMessageBytes: w == cs.roundWAL && sp == 0
+//@   callpre Broadcast: pi == 0 ==> ghost(wal_synced) && recIs(0, b)
+//@   loop 0: invariant cs != nil
